@@ -621,7 +621,7 @@ func c19Gen(c *Ctx) {
 	}
 	c.Each(len(directed), func(i int, t *T) { t.Try("script-directed", directed[i], true) })
 	// ---- random scripts
-	nr := c.N(2500, 60000)
+	nr := c.N(10000, 200000)
 	c.Each(nr, func(i int, t *T) {
 		if tooMany() {
 			return
@@ -657,7 +657,7 @@ func c19Gen(c *Ctx) {
 		t.Try("script-random", in, ngo >= 3 && len(kinds) >= 2)
 	})
 	// ---- stress with traces
-	ns := c.N(120, 2000)
+	ns := c.N(400, 6000)
 	c.Each(ns, func(i int, t *T) {
 		if tooMany() {
 			return
@@ -674,7 +674,7 @@ func c19Gen(c *Ctx) {
 		t.Try("stress-trace", in, s*m >= 10)
 	})
 	// ---- bulk stress (no trace): many empty tasks, Add/Done/token traffic at full speed
-	nb := c.N(24, 200)
+	nb := c.N(40, 400)
 	c.Each(nb, func(i int, t *T) {
 		if tooMany() {
 			return
